@@ -47,6 +47,8 @@ def run(tier, replay=None):
         mm["split"] = ck.coq_eval_cases(lines("cases_split.txt"), hdr, "int * list str * list (list str) * list str", "split_mismatches", tag="split")
     if ck.coq_ok:
         mm["witness"] = ck.coq_eval_cases(lines("cases_witness.txt"), hdr, "int * file * wobs", "witness_mismatches", shards=1, tag="witness")
+    if ck.coq_ok:
+        mm["runtime"] = ck.coq_eval_cases(lines("cases_runtime.txt"), hdr, "int * mdata * list (str * list str) * list (str * list str) * bool * bool * list stage", "runtime_mismatches", tag="runtime")
     if ck.coq_ok and tier == "thorough":
         hdrv = "From GRPC Require Import Model Values RunValues.\nOpen Scope Z_scope."
         vl = lines("cases_values.txt")
@@ -78,14 +80,14 @@ def run(tier, replay=None):
                         first["reason"] = CODES.get(dec[0][1], "")
             ck.unproved("correspondence GRPC model vs goa's .proto emission broke on %d case(s) (%s); the direct oracle found no failing input" % (
                 total, ", ".join("%s: %d" % (s, len(b)) for s, b in mm.items() if b)),
-                {"broken": "correspondence print_file / field_name / split_message / from_proto∘to_proto = observed",
+                {"broken": "correspondence print_file / field_name / split_message / md_write / handle_trace / from_proto∘to_proto = observed",
                  "first_disagreeing_case": first, "mismatches": detail})
     for k, v in sorted(res["distribution"].items()):
         if k.startswith("witness-not-reproduced:") or k.startswith("witness-now-rejected:"):
             ck.notes.append(k)
     cov = {"evaluations": res["evaluations"], "distinct_nontrivial": res["distinct_nontrivial"], "rule": res["rule"],
            "samples": res["samples"], "distribution": res["distribution"],
-           "model_cases": {s: len(lines("cases_%s.txt" % s)) for s in ("main", "names", "split", "witness", "values")},
+           "model_cases": {s: len(lines("cases_%s.txt" % s)) for s in ("main", "names", "split", "witness", "runtime", "values")},
            "model_mismatches": {s: (len(b) if b is not None else None) for s, b in mm.items()} if ck.coq_ok else None,
            "extra": res.get("extra", {}), "exhaustive": False,
            "partial": "protoc is absent: the protoc finaliser is dropped, the protobuf wire format is not exercised, tier B uses stand-in pb structs with protoc-gen-go's field naming"}
@@ -94,6 +96,7 @@ def run(tier, replay=None):
         "model GRPC/Model.v is hand-written from grpc/codegen/protobuf.go (protoBufMessageDef, protoType, rpcTag, protoBufify), codegen/funcs.go (CamelCase, SnakeCase), the proto templates and expr/grpc_endpoint.go validateRPCTags; tied by evaluating print_file / field_name / split_message inside Coq on every case the real code ran",
         "the attribute tree given to the model is read back from goa's own service data after analysis (message names, wrapping of nested collections, collection order are goa's: modelled by extraction, not verified); the designed streaming kind and the direct oracle use the design description only",
         "attribute names are ASCII; recursive user types, aliases of aliases, bytes map keys (generator crashes recorded in notes/C10.md) are outside the generated envelope",
+        "runtime stream: goagrpc.NewInvoker wired to goagrpc.NewUnaryHandler through an in-memory transport (outgoing metadata of the invoker's context = incoming metadata of the handler's context; headers / trailers handed back through the grpc.Header / grpc.Trailer call options), hand-written encoders / decoders of the generated shape",
         "tier B (thorough): stand-in pb structs replace protoc-gen-go output; grpc metadata.MD is real"],
         trusted_base=["harness/cmd/c10 (design interpreter over the public DSL, Go tokenizer feeding the Coq comparison, extraction of goa's attribute trees, independent proto3 recogniser and oracle)",
                       "lib/vcheck.py case sharding and result parsing"])
